@@ -150,3 +150,75 @@ Proof.
   exists (SetOp (Single (VStr [65; 66]%N) false) Inter (El (Single (VStr [66; 67]%N) false))).
   eexists. exists 65%N. split; [vm_compute; reflexivity|]. repeat split; reflexivity.
 Qed.
+
+(* ---- inclusion of another constrained string type as the whole constraint *)
+Lemma collect_a_cons fuel t cs : collect_a fuel t (map ACons cs) = collect fuel t cs.
+Proof. induction cs as [|c r IH]; [reflexivity|]. cbn [map collect_a collect try_new_a]. now rewrite IH. Qed.
+
+Lemma annotation_a_cons fuel t cs : alphabet_annotation_a fuel t (map ACons cs) = alphabet_annotation fuel t cs.
+Proof. destruct cs as [|c r]; [reflexivity|]. unfold alphabet_annotation_a, alphabet_annotation. cbn [map]. now rewrite <- collect_a_cons. Qed.
+
+(* the annotation of `T (Included)` is the annotation of the included type's own constraints *)
+Lemma inclusion_is_included fuel t t' c cs' :
+  known_multiplier t = true ->
+  alphabet_annotation_a fuel t [AIncl t' (c :: cs')] = alphabet_annotation fuel t' (c :: cs').
+Proof.
+  intro Hk. unfold alphabet_annotation_a, alphabet_annotation. cbn [collect_a try_new_a]. rewrite Hk. cbn [negb].
+  destruct (collect fuel t' (c :: cs')) as [l| | |]; cbn [bind]; try reflexivity. now rewrite app_nil_r.
+Qed.
+
+Lemma inclusion_exact fuel t t' inner ann :
+  known_multiplier t = true -> known_multiplier t' = true -> union_only inner = true -> simple_alpha inner = true ->
+  alphabet_annotation_a fuel t [AIncl t' [{| cset := El (Alpha inner); cext := false |}]] = Ok ann ->
+  forall c, denote (match ann with Some l => l | None => [] end) c = semb_alpha_rn inner c.
+Proof.
+  intros Hk Hk' Hu Hs Ha. rewrite (inclusion_is_included fuel t t' _ [] Hk) in Ha.
+  exact (annotation_union_exact fuel t' inner ann Hk' Hu Hs Ha).
+Qed.
+
+Lemma inclusion_none_for_unknown fuel t t' cs' : known_multiplier t = false -> alphabet_annotation_a fuel t [AIncl t' cs'] = Ok None.
+Proof. intro H. unfold alphabet_annotation_a. cbn [collect_a try_new_a]. rewrite H. reflexivity. Qed.
+
+(* inside a set operation the included type contributes nothing: whatever it permits, `Included | FROM (s)` and
+   `FROM (s) | Included` come out as FROM (s) before e27a721 and as no annotation at all since *)
+Lemma inclusion_in_union_ignored :
+  let s := El (Single (VStr [120%N]) false) in
+  try_new 6 IA5String {| cset := SetOp Contained Union (El (Alpha s)); cext := false |} = Ok None /\
+  try_new 6 IA5String {| cset := SetOp (Alpha s) Union (El Contained); cext := false |} = Ok None.
+Proof. vm_compute. split; reflexivity. Qed.
+
+(* ---- the tables are the X.680 alphabets *)
+Lemma tables_match_all : forallb table_matches [NumericString; PrintableString; VisibleString; IA5String] = true.
+Proof. vm_compute. reflexivity. Qed.
+
+Lemma x680_defined t b c : x680_alphabet t c = Some b -> exists b0, x680_alphabet t 0 = Some b0.
+Proof. destruct t; cbn [x680_alphabet]; intro H; try discriminate H; eexists; reflexivity. Qed.
+
+Lemma x680_small t b c : x680_alphabet t c = Some b -> (256 <= c)%N -> b = false.
+Proof.
+  intros Hb Hc. destruct t; cbn [x680_alphabet] in Hb; try discriminate Hb; inversion Hb; subst; unfold in_rng;
+    repeat match goal with
+           | |- context [N.eqb c ?k] => replace (N.eqb c k) with false by (symmetry; apply N.eqb_neq; lia)
+           | |- context [N.leb c ?k] => replace (N.leb c k) with false by (symmetry; apply N.leb_gt; lia)
+           end; rewrite ?andb_false_r, ?orb_false_r; reflexivity.
+Qed.
+
+Lemma table_is_x680 t b c :
+  In t [NumericString; PrintableString; VisibleString; IA5String] ->
+  x680_alphabet t c = Some b -> existsb (N.eqb c) (character_set t) = b.
+Proof.
+  intros Ht Hb.
+  destruct (x680_defined t b c Hb) as [b0 Hb0].
+  assert (Hm : table_matches t = true).
+  { pose proof tables_match_all as H. rewrite forallb_forall in H. exact (H t Ht). }
+  unfold table_matches in Hm. rewrite Hb0 in Hm.
+  apply andb_true_iff in Hm as [Hm Hall]. apply andb_true_iff in Hm as [Hlt _].
+  destruct (N.ltb c 256) eqn:Hc.
+  - apply N.ltb_lt in Hc. rewrite forallb_forall in Hall.
+    assert (Hin : In (N.to_nat c) (seq 0 256)) by (apply in_seq; lia).
+    specialize (Hall (N.to_nat c) Hin). rewrite N2Nat.id in Hall. rewrite Hb in Hall.
+    now apply Bool.eqb_prop in Hall.
+  - apply N.ltb_ge in Hc. rewrite (x680_small t b c Hb Hc).
+    apply Bool.not_true_is_false. intro He. apply existsb_exists in He as [x [Hx Hxc]].
+    apply N.eqb_eq in Hxc. subst x. rewrite forallb_forall in Hlt. specialize (Hlt c Hx). apply N.ltb_lt in Hlt. lia.
+Qed.
